@@ -229,7 +229,7 @@ DELIBERATE_ENSURES = [
     ("pure-bundle-unchanged", "dyn_same(bundle, old(bundle))"),
 ]
 R.contract(
-    POL + "deliberate", "C13",
+    POL + "deliberate", ["C13", "C17"],
     types={"bundle": "Dyn"},
     ensures=DELIBERATE_ENSURES,
     raises=["Exception"],
